@@ -1,14 +1,224 @@
-import TraitsVerif.Model.PyValidate
+/-
+C03 — compiled fast validators decide exactly like the Python validators.
+
+Only the property theorems (and non-vacuity examples) live here; the lemmas are
+in Lemmas/ValFast.lean, ValAgree.lean, ValOrder.lean, ValInduct.lean.
+
+Model: Model/FastValidate.lean (`fastAlone`, `complexCase`/`fastComplex`,
+`fastInCompound`), Model/PyValidate.lean (`pyValidate`, `descOf`,
+`ctraitValidate`).  `Env` carries what the validators call out to (type
+constructors, user validator functions, adapt, the object's class): every
+theorem holds for every `Env`.
+-/
+import TraitsVerif.Lemmas.ValOrder
 import TraitsVerif.Generated.ValidateTables
 namespace TraitsVerif.Props.C03
 open TraitsVerif TraitsVerif.Py TraitsVerif.Model
 
-/-- The tables read from the working tree are the tables the model transcribes. -/
+/-! ## The tie to the source tables -/
+
+/-- The tables read from the working tree are the tables the model transcribes:
+`validate_handlers[]` entry by entry, the `case` labels of
+`validate_trait_complex` and of `_trait_set_validate`, the `ValidateTrait`
+enum, and the four negated comparisons of `in_float_range`.  A renumbering, a
+new or removed case, a flipped or un-negated range comparison changes the
+generated file and this stops checking. -/
 theorem C03_tables_modelled :
     Generated.validateHandlers = handlerTable ∧
     Generated.complexCaseLabels = Model.complexCaseLabels ∧
     Generated.setValidateCaseLabels = setValidateLabels ∧
     Generated.validateTraitEnum = Model.validateTraitEnum ∧
     Generated.floatRangeTests = ["!>low", "!>=low", "!<high", "!<=high"] := by decide
+
+/-- Every descriptor kind the model gives a `case` arm is a kind the C switch
+has, and every kind `fastAlone` implements has its function in the table. -/
+theorem C03_kinds_covered (d : Desc) (h : d.isAlt = true) :
+    d.kind ∈ Generated.complexCaseLabels ∧ d.kind ∈ Generated.setValidateCaseLabels ∧
+    Generated.validateHandlers[d.kind]? ≠ some "NULL" := by
+  cases d <;> simp [Desc.isAlt] at h <;> decide
+
+/-! ## The two C copies of every case agree -/
+
+/-- For every descriptor that can be an alternative, every value, every
+environment: the `case` arm inside `validate_trait_complex` does exactly what
+the stand-alone validator does (accept the same value / move on where the
+stand-alone function raises TraitError / pass the same exception), and a
+one-element compound is the alternative itself. -/
+theorem C03_copies_agree (E : Env) (d : Desc) (v : Val) (h : d.isAlt = true) :
+    complexCase E d v = (fastAlone E d v).lift ∧ fastInCompound E d v = fastAlone E d v :=
+  ⟨complexCase_eq_lift E d v h, fastInCompound_eq E d v h⟩
+
+example : (Desc.floatRange (some (.fin 0)) (some (.fin 4)) 3).isAlt = true := rfl
+
+/-! ## A compound is its first accepting alternative -/
+
+/-- `validate_trait_complex` over entries `ds` returns the result of the first
+entry that, validated on its own, does not raise TraitError (an entry that
+raises another exception stops the search with that exception), and TraitError
+if there is none.  In particular it accepts `w` iff some entry accepts `w` on
+its own and every entry before it says TraitError. -/
+theorem C03_compound_first (E : Env) (ds : List Desc) (v : Val)
+    (h : ∀ d ∈ ds, d.isEntry = true) :
+    fastAlone E (.complex ds) v = firstAccept (ds.map (altAlone E · v)) ∧
+    (∀ w, fastAlone E (.complex ds) v = .ok w ↔
+      ∃ pre post, ds.map (altAlone E · v) = pre ++ Res.ok w :: post ∧ ∀ r ∈ pre, r = Res.traitError) := by
+  have h1 : fastAlone E (.complex ds) v = firstAccept (ds.map (altAlone E · v)) := by
+    simp only [fastAlone]; exact fastComplex_first E ds v h
+  exact ⟨h1, fun w => by rw [h1]; exact firstAccept_ok_iff _ w⟩
+
+/-- Evaluation order of Either(t1, …, tn[, None]) (what `set_validate` builds):
+the alternatives that have a fast validator in declaration order — a nested
+compound in place, as a unit —, then `None`, then the alternatives without a
+fast validator; the result is that of the first one whose own CTrait validator
+does not raise TraitError.  (Hypothesis: alternatives without a descriptor have
+a Python validate method — `Any` has none, see finding F48.) -/
+theorem C03_compound_order (E : Env) (hE : CastIdem E) (alts : List TraitType) (wn : Bool)
+    (d : Desc) (v : Val)
+    (hslow : ∀ t ∈ alts, descOf E t = none → hasPy t = true)
+    (hd : descOf E (.either alts wn) = some d) :
+    ctraitValidate E (.either alts wn) v = firstAccept (
+      (fastAlts E alts).map (ctraitValidate E · v) ++
+      ((if wn then [fastAlone E (.enum [Val.none]) v] else []) ++
+       (slowAlts E alts).map (ctraitValidate E · v))) := by
+  have := either_first E hE alts wn d v hslow hd
+  simpa [ctraitValidate, ctraitValidateWith, hd] using this
+
+/-! ## Tuple is element-wise -/
+
+/-- `validate_trait_tuple`: anything that is not a tuple of the declared length
+is rejected; otherwise the elements are validated left to right by the inner
+traits' own validators and the first one that is not accepted decides
+(TraitError, or its exception); if all are accepted the result is the value
+itself when no element changed and a new plain tuple of the results otherwise. -/
+theorem C03_tuple (E : Env) (items : List (Option Desc)) (v : Val) :
+    ((∀ sub vs, v = .tuple sub vs → items.length ≠ vs.length) → fastAlone E (.tuple items) v = .traitError) ∧
+    (∀ sub vs, v = .tuple sub vs → items.length = vs.length →
+      fastAlone E (.tuple items) v =
+        match elementwise (List.zipWith (optValidate E) items vs) with
+        | .error none => .traitError
+        | .error (some e) => .raised e
+        | .ok ws => if ws = vs then .ok v else .ok (.tuple false ws)) := by
+  constructor
+  · intro h
+    simp only [fastAlone]
+    rcases v with a | ⟨sub, vs⟩ | vs
+    · simp [tupleCheckWith]
+    · simp [tupleCheckWith, h sub vs rfl]
+    · simp [tupleCheckWith]
+  · intro sub vs hv hlen
+    subst hv
+    simp only [fastAlone, tupleCheckWith, hlen, if_true, tupleItems_elementwise]
+    cases elementwise (List.zipWith (optValidate E) items vs) with
+    | error x => cases x <;> rfl
+    | ok ws =>
+      by_cases hb : ws = vs
+      · simp [hb, Val.beqL_refl]
+      · have : Val.beqL ws vs = false := by
+          cases h : Val.beqL ws vs with
+          | false => rfl
+          | true => exact absurd ((Val.beqL_iff ws vs).mp h) hb
+        simp [hb, this]
+
+/-- The input object is re-used iff no element changed. -/
+theorem C03_tuple_reuse (E : Env) (items : List (Option Desc)) (sub : Bool) (vs ws : List Val)
+    (hlen : items.length = vs.length)
+    (hok : elementwise (List.zipWith (optValidate E) items vs) = .ok ws) :
+    (fastAlone E (.tuple items) (.tuple sub vs) = .ok (.tuple sub vs) ↔ (ws = vs ∨ sub = false)) := by
+  have := (C03_tuple E items (.tuple sub vs)).2 sub vs rfl hlen
+  rw [this, hok]
+  by_cases hb : ws = vs
+  · simp [hb]
+  · simp only [hb, if_false, false_or]
+    constructor
+    · intro h; cases h; rfl
+    · intro h; subst h
+      have h2 := elementwise_ok_length _ _ hok
+      constructor
+      all_goals simp_all
+
+/-! ## Fast ≡ Python -/
+
+/-- The property at full strength: for every trait type that has a descriptor
+and a Python validate method and every value, the fast result and the Python
+result are in the relation `Agree` (same accepted value of the same exact type;
+Python TraitError ⇒ fast TraitError; where Python raises something else the fast
+path does not accept).  FALSE of the pinned tree: see the witnesses below. -/
+def C03_agree_full : Prop :=
+  ∀ (E : Env), CastIdem E → ∀ (t : TraitType) (d : Desc) (v : Val),
+    descOf E t = some d → hasPy t = true → Agree (fastAlone E d v) (pyValidate E t v)
+
+/-- Proved part 1 — every trait type that is not a compound, except the leaves of
+findings F40 (Callable(allow_none=False)), F41/F42 (TraitCoerceType), F47
+(Instance of a class None is an instance of, allow_none=False), and except
+tuple-subclass instances (F11): full agreement, including "Python raises ⇒ the
+fast path does not accept". -/
+theorem C03_agree_partial (E : Env) (hE : CastIdem E) (t : TraitType) (d : Desc) (v : Val)
+    (hl : t.isLeaf = true) (hc : t.leafClean = true) (hd : descOf E t = some d)
+    (hp : hasPy t = true) (hv : v.notTupleSub = true) :
+    Agree (fastAlone E d v) (pyValidate E t v) :=
+  agree_leaf E hE t d v hl hc hd hp hv
+
+/-- Proved part 2 — all trait types, compounds of any nesting included: wherever
+the Python path does not let an exception other than TraitError out, the two
+paths give the same result (same accepted value, TraitError iff TraitError).
+Missing for the full statement: the leaves excluded by `clean`, tuple
+subclasses, and the case where an alternative's Python validate raises a
+foreign exception that the C switch swallows (findings F43a–c, F44). -/
+theorem C03_agree_compound_partial (E : Env) (hE : CastIdem E) (t : TraitType) (d : Desc) (v : Val)
+    (hd : descOf E t = some d) (hc : t.clean = true) (hv : v.notTupleSub = true)
+    (hr : ∀ e, pyValidate E t v ≠ .raised e) :
+    fastAlone E d v = pyValidate E t v :=
+  (agreeP_all E hE t).2 d v hd hc hv hr
+
+/-- An environment in which calling a type on a non-instance raises OverflowError
+(think `int(float('inf'))`). -/
+def E0 : Env :=
+  { cast := fun t v => if Val.exactTy t v then .ok v else .error .overflowError
+    fn := fun _ v => .ok v
+    adapt := fun _ _ => .ok none
+    selfCls := 0
+    rx := fun _ _ => false }
+
+theorem E0_castIdem : CastIdem E0 := by
+  intro t v h; simp [E0, h]
+
+example : (TraitType.either [.int, .tuple [.float, .str]] true).clean = true := by decide
+example : ∀ e, pyValidate E0 (.either [.int, .tuple [.float, .str]] true) Val.none ≠ .raised e := by decide
+
+/-- F11: Tuple(Int, Int) on an instance of a tuple subclass. -/
+theorem C03_agree_fails_at_tuple_subclass :
+    fastAlone E0 (.tuple [some .int, some .int]) (.tuple true [Val.ofInt 1, Val.ofInt 2])
+      = .ok (.tuple true [Val.ofInt 1, Val.ofInt 2]) ∧
+    pyValidate E0 (.tuple [.int, .int]) (.tuple true [Val.ofInt 1, Val.ofInt 2])
+      = .ok (.tuple false [Val.ofInt 1, Val.ofInt 2]) := by decide
+
+/-- F40: Callable(allow_none=False) on None. -/
+theorem C03_agree_fails_at_callable_none :
+    fastAlone E0 (.callable (some false)) Val.none = .traitError ∧
+    pyValidate E0 (.callable false) Val.none = .ok Val.none := by decide
+
+/-- F41: Trait(int) on True — and F42: Trait(float) on 3. -/
+theorem C03_agree_fails_at_coerce :
+    (fastAlone E0 (.coerce .int []) (Val.ofBool true) = .ok (Val.ofBool true) ∧
+     pyValidate E0 (.coerceH .int) (Val.ofBool true) = .traitError) ∧
+    (fastAlone E0 (.coerce .float [some .int]) (Val.ofInt 3) = .ok (Val.ofInt 3) ∧
+     pyValidate E0 (.coerceH .float) (Val.ofInt 3) ≠ .ok (Val.ofInt 3)) := by decide
+
+/-- F47: Instance(object, allow_none=False) on None. -/
+theorem C03_agree_fails_at_instance_object_none :
+    fastAlone E0 (.instChk false .object) Val.none = .ok Val.none ∧
+    pyValidate E0 (.instance .object false 0 Val.none) Val.none = .traitError := by decide
+
+/-- F43a: Either(CInt, Float) on inf — the Python path raises, the fast path accepts. -/
+theorem C03_agree_fails_at_compound_exception :
+    fastAlone E0 (.complex [.cast .int, .float]) (Val.ofFloat .pinf) = .ok (Val.ofFloat .pinf) ∧
+    pyValidate E0 (.either [.cint, .float] false) (Val.ofFloat .pinf) = .raised .overflowError := by decide
+
+/-- The full statement is false of the model (hence, by correspondence, of the code). -/
+theorem C03_agree_full_is_false : ¬ C03_agree_full := by
+  intro h
+  have := h E0 E0_castIdem (.callable false) (.callable (some false)) Val.none (by decide) (by decide)
+  rw [C03_agree_fails_at_callable_none.1, C03_agree_fails_at_callable_none.2] at this
+  simp [Agree] at this
 
 end TraitsVerif.Props.C03
